@@ -245,6 +245,18 @@ func (c *Ctx) PreCheckRules(prop string) {
 				if a.Op == "true" && boolOK[a.LV] {
 					return true
 				}
+				// `unlocked` merged from IsUnlocked and UnlockAccount: true means the merged-in answer was true
+				if phi, isPhi := a.LV.(*ssa.Phi); a.Op == "true" && isPhi {
+					all := len(phi.Edges) > 0
+					for _, e := range phi.Edges {
+						if !boolOK[e] {
+							all = false
+						}
+					}
+					if all {
+						return true
+					}
+				}
 				// not lockable: comma-ok of the assertion to AccountLocker is false
 				if a.Op == "false" {
 					if ex, ok := a.LV.(*ssa.Extract); ok && ex.Index == 1 {
